@@ -1,12 +1,13 @@
-(* C02 — the view invariant is preserved by every step, for the reader modes wait /
-   single-wait / busy-loop (locked and single writers). *)
+(* C02 — the view invariant is preserved by every step (all writer and reader modes). *)
 From MV Require Import C02.Model C02.ProofsBase C02.ProofsCtl C02.ProofsFun C02.ProofsFunStep C02.ProofsView.
 Local Open Scope Z_scope.
 
-Lemma unt_ticket c s x : VSh c s -> vthr_ok c s x -> kpc (t_pc x) = false ->
-  (t_pc x = RRead -> 0 <= c_pre c + t_cnt x < s_nw s) -> untouched c s x (CPay (s_begun s)).
+Lemma unt_ticket c s x : VSh c s -> vthr_ok c s x ->
+  (t_pc x = RRead -> 0 <= c_pre c + t_cnt x < s_nw s) ->
+  (t_pc x = KCheck -> s_rc s <> t_pos x -> 0 <= s_nt s < s_nw s) ->
+  untouched c s x (CPay (s_begun s)).
 Proof.
-  intros Vsh (Hle & Hsg & Hpc) Hk Hrr.
+  intros Vsh (Hle & Hsg & Hpc) Hrr Hkc.
   assert (Hcs : covsafe s (CPay (s_begun s))).
   { split; [intros j; discriminate|]. intros n Hn E. injection E as E. pose proof (v_wr_lt _ _ Vsh n Hn). lia. }
   split; [intros; exact Hcs|].
@@ -22,16 +23,43 @@ Proof.
   - exact Hcs.
   - split; [discriminate|]. intros E; injection E as E. specialize (Hrr eq_refl).
     pose proof (v_wr_lt _ _ Vsh _ Hrr). lia.
+  - split; [discriminate|]. intros Hn. split; [discriminate|]. intros E; injection E as E.
+    specialize (Hkc eq_refl Hn). pose proof (v_wr_lt _ _ Vsh _ Hkc). lia.
+  - split; [discriminate|]. intros E; injection E as E. destruct Hpc as [_ [A _]]. lia.
+  - intros E; injection E as E. destruct Hpc as [A _]. lia.
 Qed.
 
-Lemma unt_slot c s x j0 : kpc (t_pc x) = false -> crit (t_pc x) = false ->
+Lemma unt_slot c s x j0 : crit (t_pc x) = false ->
   (c_wm c = WSingle -> wpc (t_pc x) = false) ->
-  (t_pc x = RRead -> t_idx x mod cap c <> j0) -> untouched c s x (CSlot j0).
+  (t_pc x = RRead -> t_idx x mod cap c <> j0) ->
+  (t_pc x = KCheck -> s_rc s <> t_pos x -> s_rc s <> j0) ->
+  untouched c s x (CSlot j0).
 Proof.
-  intros Hk Hcr Hsg Hrr. split.
+  intros Hcr Hsg Hrr Hkc. split.
   - intros Hw Hp. rewrite (Hsg Hw) in Hp. discriminate.
   - destruct (t_pc x); simpl in *; try exact I; try discriminate.
-    split; [|discriminate]. intros E; injection E as E. apply (Hrr eq_refl). exact E.
+    + split; [|discriminate]. intros E; injection E as E. apply (Hrr eq_refl). exact E.
+    + split; [discriminate|]. intros Hn. split; [|discriminate]. intros E; injection E as E.
+      apply (Hkc eq_refl Hn). exact E.
+    + split; discriminate.
+Qed.
+
+Lemma unt_take c s x : mheld (t_pc x) = false -> untouched c s x CRc.
+Proof.
+  intros Hm.
+  assert (Hcs : covsafe s CRc) by (split; intros; discriminate).
+  split; [intros; exact Hcs|].
+  destruct (t_pc x); simpl in *; try exact I; try discriminate; try exact Hcs;
+    try (split; [discriminate|exact Hcs]); try (split; discriminate).
+Qed.
+
+(* a read-once reader that will take (read_cursor <> the cursor value it loaded) is behind the writers *)
+Lemma kcheck_lt c s x : BSh c s -> pc_ok c s x -> t_pc x = KCheck -> s_rc s <> t_pos x ->
+  0 <= s_nt s < s_nw s.
+Proof.
+  intros Bsh Hpc Ep Hn. unfold pc_ok in Hpc. rewrite Ep in Hpc. destruct Hpc as (nwo & P1 & P2 & P3).
+  pose proof (b_nt _ _ Bsh). destruct (Z.eq_dec (s_nt s) nwo) as [E|E]; [|lia].
+  exfalso. apply Hn. rewrite (b_rc _ _ Bsh), P1, E. reflexivity.
 Qed.
 
 Section Step.
@@ -39,12 +67,11 @@ Variable P : params.
 Variable c : cfg.
 Hypothesis Hwf : wf_cfg c.
 Hypothesis Hmo : mo_ok P c = true.
-Hypothesis Hm : c_rm c <> ROnce.
 
-Lemma no_kpc s u : AInv c s -> kpc (t_pc (s_thr s u)) = false.
+Lemma kcheck_of_binv s u : BInv c s -> t_pc (s_thr s u) = KCheck -> s_rc s <> t_pos (s_thr s u) ->
+  0 <= s_nt s < s_nw s.
 Proof.
-  intros HA. destruct (kpc (t_pc (s_thr s u))) eqn:E; [|reflexivity].
-  exfalso. apply Hm. apply (a_rm_k _ _ HA u E).
+  intros [Bsh Ball] Ep Hn. destruct (Ball u) as (_ & _ & _ & Kpc). eapply kcheck_lt; eauto.
 Qed.
 
 (* harness: ticket and payload store by thread t *)
@@ -77,9 +104,9 @@ Proof.
     + simpl. rewrite vget_upd_same. lia.
     + simpl. lia.
     + apply unt_ticket; auto.
-      * apply no_kpc. exact HA.
       * intros Ep. destruct (Ball u) as (K0 & Kr & _ & Kpc). unfold pc_ok in Kpc. rewrite Ep in Kpc.
         pose proof (wf_pre _ Hwf). lia.
+      * intros Ep Hx. apply (kcheck_of_binv s u); [split; assumption|exact Ep|exact Hx].
   - apply vle_bump. apply (proj1 (Vall t)).
   - unfold vcov, v1, bump. simpl. rewrite !vget_upd_same. reflexivity.
   - intros [A B]. destruct Hcs as [S1 S2]. split.
@@ -91,7 +118,7 @@ Qed.
 (* the slot store by the owner of the write side; [s] is the state just before the store *)
 Lemma vinv_slot s s' t x' v m lap :
   VSh c s -> (forall u, u <> t -> vthr_ok c s (s_thr s u)) ->
-  (forall u, kpc (t_pc (s_thr s u)) = false) ->
+  (forall u, u <> t -> t_pc (s_thr s u) = KCheck -> s_rc s <> t_pos (s_thr s u) -> s_rc s <> s_cursor s) ->
   (forall u, u <> t -> crit (t_pc (s_thr s u)) = false) ->
   (c_wm c = WSingle -> forall u, u <> t -> wpc (t_pc (s_thr s u)) = false) ->
   (forall u, u <> t -> t_pc (s_thr s u) = RRead -> t_idx (s_thr s u) mod cap c <> s_cursor s) ->
@@ -135,7 +162,7 @@ Proof.
     + eapply (vthr_touch c s _ _ (CSlot j0)); eauto.
       * simpl. unfold j0. rewrite vget_upd_same. lia.
       * simpl. lia.
-      * apply unt_slot; auto.
+      * apply unt_slot; auto. intros Ep Hx. apply (Hk u); assumption.
 Qed.
 
 Ltac own_pc Vle Vsg Epc :=
@@ -144,20 +171,34 @@ Ltac own_pc Vle Vsg Epc :=
                              | unfold vpc_ok; simpl ]].
 Ltac vpc_only HV Vle Vsg Epc :=
   eapply vinv_frame; [samev_tac | reflexivity | exact HV | own_pc Vle Vsg Epc].
-Ltac no_k HA t Epc := exfalso; apply Hm; apply (a_rm_k _ _ HA t); rewrite Epc; reflexivity.
 
 (* a reader at RRead is not reading the slot the owner of the write side is about to store *)
 Lemma reader_not_at_cursor s s' u :
-  BInv c s -> BInv c s' -> s_wbeg s = s_nw s -> s_wbeg s' = s_wbeg s + 1 -> s_cfg s = c ->
-  is_reader c u = true -> s_thr s' u = s_thr s u ->
+  AInv c s -> BInv c s -> BInv c s' -> s_wbeg s = s_nw s -> s_wbeg s' = s_wbeg s + 1 ->
+  s_thr s' u = s_thr s u ->
   t_pc (s_thr s u) = RRead -> t_idx (s_thr s u) mod cap c <> s_cursor s.
 Proof.
-  intros [Bsh Ball] [Bsh' Ball'] Hwn Hw1 Hcfg Hr Hsame Ep.
+  intros HA [Bsh Ball] [Bsh' Ball'] Hwn Hw1 Hsame Ep.
+  assert (Hm : c_rm c <> ROnce) by (apply (a_rm_r _ _ HA u); rewrite Ep; reflexivity).
+  assert (Hr : is_reader c u = true) by (apply (a_rrole _ _ HA u); rewrite Ep; reflexivity).
   destruct (Ball u) as (K0 & Kr & _ & Kpc). unfold pc_ok in Kpc. rewrite Ep in Kpc.
   destruct (Kr Hm) as (A & _ & C). destruct (C Hr) as [_ C2].
   destruct (Ball' u) as (_ & Kr' & _ & _). rewrite Hsame in Kr'. destruct (Kr' Hm) as (_ & _ & C').
   destruct (C' Hr) as [C1' _]. rewrite (b_cur _ _ Bsh), C2.
   pose proof (cap_pos c). apply not_eq_sym. apply mod_neq; lia.
+Qed.
+
+(* a read-once reader about to take is not reading the slot the owner is about to store *)
+Lemma kcheck_not_at_cursor s s' u :
+  AInv c s -> BInv c s -> BInv c s' -> s_wbeg s = s_nw s -> s_wbeg s' = s_wbeg s + 1 ->
+  s_nt s' = s_nt s ->
+  t_pc (s_thr s u) = KCheck -> s_rc s <> t_pos (s_thr s u) -> s_rc s <> s_cursor s.
+Proof.
+  intros HA HB [Bsh' _] Hwn Hw1 Hnt Ep Hx.
+  assert (Hm : c_rm c = ROnce) by (apply (a_rm_k _ _ HA u); rewrite Ep; reflexivity).
+  pose proof (kcheck_of_binv s u HB Ep Hx) as Hlt. destruct HB as [Bsh _].
+  pose proof (b_nolap_once _ _ Bsh' Hm) as L. rewrite Hnt, Hw1, Hwn in L.
+  rewrite (b_rc _ _ Bsh), (b_cur _ _ Bsh). pose proof (cap_pos c). apply not_eq_sym. apply mod_neq; lia.
 Qed.
 
 Lemma vthr_same6 s s' x :
@@ -184,6 +225,7 @@ Proof.
   intros HA HB HB' HV Hs Hlap. pose proof HV as [Vsh Vall]. pose proof HB as [Bsh Ball].
   pose proof (a_cfg _ _ HA) as Hcfg.
   destruct (Vall t) as (Vle & Vsg & Vpc). destruct (Ball t) as (K0 & Kr & _ & Kpc).
+  pose proof Kpc as KpcT.
   pose proof (cap_pos c) as HK. pose proof (wf_pre _ Hwf) as Hpre.
   pose proof (a_single _ _ HA) as Hsgl.
   unfold step in Hs. rewrite Hcfg in Hs. unfold vpc_ok in Vpc. unfold pc_ok in Kpc.
@@ -206,13 +248,13 @@ Proof.
            eapply (vinv_slot (set_ticket s) _ t _ (bump (t_view (s_thr s t)) (s_ver s) (CPay (s_begun s)))); try reflexivity; simpl.
            ++ exact T1.
            ++ exact T2.
-           ++ intros u. apply no_kpc. exact HA.
+           ++ intros u Hn Ep Hx. simpl in *.
+              apply (kcheck_not_at_cursor s _ u HA HB HB' (Kpc eq_refl) eq_refl eq_refl Ep Hx).
            ++ intros u Hn. apply crit_wpc_false. eapply wpc_others_single; eauto. rewrite Epc. reflexivity.
            ++ intros _ u Hn. eapply wpc_others_single; eauto. rewrite Epc. reflexivity.
            ++ intros u Hn Ep. simpl in Ep.
-              apply (reader_not_at_cursor s _ u HB HB' (Kpc eq_refl) eq_refl Hcfg);
-                [ apply (a_rrole _ _ HA u); rewrite Ep; reflexivity
-                | simpl; unfold upd; destruct (Nat.eqb_spec u t); [contradiction|reflexivity]
+              apply (reader_not_at_cursor s _ u HA HB HB' (Kpc eq_refl) eq_refl);
+                [ simpl; unfold upd; destruct (Nat.eqb_spec u t); [contradiction|reflexivity]
                 | exact Ep ].
            ++ apply (b_cur _ _ Bsh).
            ++ apply Kpc. reflexivity.
@@ -248,13 +290,12 @@ Proof.
     destruct Vpc as [[Tm Tc] Cv]. inv_some Hs.
     eapply (vinv_slot s _ t _ (t_view (s_thr s t))); try reflexivity; try assumption.
     + intros u _. apply Vall.
-    + intros u. apply no_kpc. exact HA.
+    + intros u Hn Ep Hx. apply (kcheck_not_at_cursor s _ u HA HB HB' Kpc eq_refl eq_refl Ep Hx).
     + intros u Hn. eapply crit_others; eauto. rewrite Epc. reflexivity.
     + intros Hw. specialize (Hsgl Hw t). rewrite Epc in Hsgl. discriminate.
     + intros u Hn Ep.
-      apply (reader_not_at_cursor s _ u HB HB' Kpc eq_refl Hcfg);
-        [ apply (a_rrole _ _ HA u); rewrite Ep; reflexivity
-        | simpl; unfold upd; destruct (Nat.eqb_spec u t); [contradiction|reflexivity]
+      apply (reader_not_at_cursor s _ u HA HB HB' Kpc eq_refl);
+        [ simpl; unfold upd; destruct (Nat.eqb_spec u t); [contradiction|reflexivity]
         | exact Ep ].
     + apply (b_cur _ _ Bsh).
     + intros Hw Hl0. pose proof (a_free _ _ HA Hw Hl0 t) as F. rewrite Epc in F. discriminate.
@@ -285,7 +326,7 @@ Proof.
         -- eapply crit_others; eauto. rewrite Epc. reflexivity.
         -- intros Hw. eapply wpc_others_single; eauto. rewrite Epc. reflexivity.
         -- intros Ep. destruct (Ball u) as (K0' & _ & _ & Kpc'). unfold pc_ok in Kpc'. rewrite Ep in Kpc'. lia.
-        -- intros Ep. pose proof (no_kpc s u HA) as F. rewrite Ep in F. discriminate.
+        -- intros Ep Hx. apply (kcheck_of_binv s u HB Ep Hx).
   - (* WUnlockSeg *) inv_some Hs. vpc_only HV Vle Vsg Epc. exact Vpc.
   - (* WUnlock *)
     assert (Hlk : c_wm c = WLock).
@@ -326,10 +367,20 @@ Proof.
               pose proof (vthr_wake s (s_thr s u0) (Vall u0)) as W. rewrite Ef in W. exact W.
            ++ apply (vthr_same6 s); try reflexivity. apply Vall.
       * inv_some Hs. vpc_only HV Vle Vsg Epc. exact I.
-    + exfalso. apply Hm. reflexivity.
+    + destruct (first_blocked (s_thr s) (c_nw c + c_nr c)) as [u0|] eqn:Ef.
+      * apply first_blocked_spec in Ef. inv_some Hs.
+        split; [eapply vsh_same; [|exact Vsh]; samev_tac|].
+        intros u. simpl. unfold upd. destruct (Nat.eqb_spec u t).
+        -- subst u. apply (vthr_same6 s); try reflexivity. exact Hme.
+        -- destruct (Nat.eqb_spec u u0).
+           ++ subst u. apply (vthr_same6 s); try reflexivity.
+              pose proof (vthr_wake s (s_thr s u0) (Vall u0)) as W. rewrite Ef in W. exact W.
+           ++ apply (vthr_same6 s); try reflexivity. apply Vall.
+      * inv_some Hs. vpc_only HV Vle Vsg Epc. exact I.
   - (* RSeg *)
     destruct (t_rem (s_thr s t)); inv_some Hs; vpc_only HV Vle Vsg Epc; exact I.
   - (* RLoad *)
+    assert (Hm : c_rm c <> ROnce) by (apply (a_rm_r _ _ HA t); rewrite Epc; reflexivity).
     inv_some Hs. unfold acq_join. rewrite Hmr.
     destruct HB' as [_ Ball']. pose proof (Ball' t) as Kt'. simpl in Kt'. unfold upd in Kt'.
     rewrite Nat.eqb_refl in Kt'. destruct Kt' as (_ & _ & _ & Kpc'). unfold pc_ok in Kpc'. simpl in Kpc'.
@@ -345,6 +396,7 @@ Proof.
         -- unfold vcov. simpl. apply vget_join_l; [exact Vle|apply (v_cur_le _ _ Vsh)|].
            apply (v_cur_pay _ _ Vsh). lia.
   - (* RRead *)
+    assert (Hm : c_rm c <> ROnce) by (apply (a_rm_r _ _ HA t); rewrite Epc; reflexivity).
     destruct Vpc as [Vs Vp].
     assert (Hrd : is_reader c t = true) by (apply (a_rrole _ _ HA t); rewrite Epc; reflexivity).
     destruct (Kr Hm) as (A & B & C). destruct (C Hrd) as [C1 C2].
@@ -365,17 +417,112 @@ Proof.
       * apply (vthr_same6 s); try reflexivity. apply Vall.
   - (* RWaitSeg *) inv_some Hs. vpc_only HV Vle Vsg Epc. exact I.
   - (* RWaitOp *)
-    destruct (s_cursor s =? t_pos (s_thr s t)); inv_some Hs; vpc_only HV Vle Vsg Epc; exact I.
+    destruct (s_cursor s =? t_pos (s_thr s t)); [destruct (Nat.eqb ch 1); [|destruct (Nat.eqb ch 2)]|]; inv_some Hs; vpc_only HV Vle Vsg Epc; exact I.
   - discriminate.
-  - no_k HA t Epc.
-  - no_k HA t Epc.
-  - no_k HA t Epc.
-  - no_k HA t Epc.
-  - no_k HA t Epc.
-  - no_k HA t Epc.
+  - (* KStart *)
+    destruct (t_rem (s_thr s t)); inv_some Hs; vpc_only HV Vle Vsg Epc; exact I.
+  - (* KLock: the mutex hands over the previous holder's view *)
+    destruct (Z.eqb_spec (s_mtx s) 0) as [M0|M0]; [|discriminate]. inv_some Hs.
+    destruct Vsh as [H1 H2 H3 H4 H5 H6 H7 H8 H9 H10]. split.
+    + constructor; simpl; try assumption. intros H; discriminate.
+    + intros u. simpl. unfold upd. destruct (Nat.eqb_spec u t).
+      * subst u. split; [simpl; apply vle_join; assumption|]. split; [simpl; intros _ Hp; discriminate|].
+        unfold vpc_ok. simpl. unfold vcov. simpl. apply vget_join_l; try assumption. apply H8. exact M0.
+      * apply (vthr_same6 s); try reflexivity. apply Vall.
+  - (* KSeg *) inv_some Hs. vpc_only HV Vle Vsg Epc. exact Vpc.
+  - (* KLoad *)
+    assert (Hmo1 : c_rm c = ROnce) by (apply (a_rm_k _ _ HA t); rewrite Epc; reflexivity).
+    inv_some Hs. unfold acq_join. rewrite Hmr.
+    eapply vinv_frame; [samev_tac | reflexivity | exact HV |].
+    split; [simpl; apply vle_join; [exact Vle|apply (v_cur_le _ _ Vsh)]|]. split; [simpl; intros _ Hp; discriminate|].
+    unfold vpc_ok. simpl. split.
+    + unfold vcov. simpl. apply vget_join_r; [exact Vle|apply (v_cur_le _ _ Vsh)|exact Vpc].
+    + intros Hx. pose proof (b_nt _ _ Bsh) as Bn.
+      assert (Hlt : s_nt s < s_nw s).
+      { destruct (Z.eq_dec (s_nt s) (s_nw s)) as [E|E]; [|lia]. exfalso. apply Hx.
+        rewrite (b_rc _ _ Bsh), (b_cur _ _ Bsh), E. reflexivity. }
+      split.
+      * unfold vcov. simpl. apply vget_join_l; [exact Vle|apply (v_cur_le _ _ Vsh)|].
+        apply (v_cur_slot _ _ Vsh). right. rewrite <- (b_cur _ _ Bsh). exact Hx.
+      * unfold vcov. simpl. apply vget_join_l; [exact Vle|apply (v_cur_le _ _ Vsh)|].
+        apply (v_cur_pay _ _ Vsh). lia.
+  - (* KCheck *)
+    assert (Hmo1 : c_rm c = ROnce) by (apply (a_rm_k _ _ HA t); rewrite Epc; reflexivity).
+    destruct Vpc as [Vc Vf].
+    assert (Hcrc : unc1 (covered (t_view (s_thr s t)) (s_ver s) CRc) = 0%nat).
+    { unfold covered. unfold vcov in Vc. rewrite Vc, Z.eqb_refl. reflexivity. }
+    destruct (Z.eqb_spec (s_rc s) (t_pos (s_thr s t))) as [E|E].
+    + inv_some Hs. rewrite Hcrc.
+      destruct Vsh as [H1 H2 H3 H4 H5 H6 H7 H8 H9 H10]. split.
+      * constructor; simpl; try assumption. rewrite H9. reflexivity.
+      * intros u. simpl. unfold upd. destruct (Nat.eqb_spec u t).
+        -- subst u. split; [exact Vle|]. split; [simpl; intros _ Hp; discriminate|].
+           unfold vpc_ok. simpl. exact Vc.
+        -- apply (vthr_same6 s); try reflexivity. apply Vall.
+    + destruct (Vf E) as [Vs Vp].
+      pose proof (kcheck_lt c s (s_thr s t) Bsh KpcT) as Hlt. specialize (Hlt Epc E).
+      assert (Hmsg : s_slot s (s_rc s) = s_wr s (s_nt s)).
+      { rewrite (b_rc _ _ Bsh). apply (b_slots _ _ Bsh); [lia|]. pose proof (b_nolap_once _ _ Bsh Hmo1). lia. }
+      assert (Hcs : unc1 (covered (t_view (s_thr s t)) (s_ver s) (CSlot (s_rc s))) = 0%nat).
+      { unfold covered. unfold vcov in Vs. rewrite Vs, Z.eqb_refl. reflexivity. }
+      inv_some Hs. rewrite Hcrc, Hcs.
+      assert (Hv : forall cl, cl <> CRc ->
+                 vget (vupd (s_ver s) CRc (vget (s_ver s) CRc + 1)) cl = vget (s_ver s) cl).
+      { intros cl Hn. apply vget_upd_other. exact Hn. }
+      assert (Hcsafe : covsafe s CRc) by (split; intros; discriminate).
+      destruct Vsh as [H1 H2 H3 H4 H5 H6 H7 H8 H9 H10]. split.
+      * constructor; simpl.
+        -- apply vle_ver_up. exact H1.
+        -- apply vle_ver_up. exact H2.
+        -- apply vle_ver_up. exact H3.
+        -- exact H4.
+        -- intros Hw Hl. eapply (cov_touch s); eauto.
+        -- intros j Hj. unfold vcov. simpl. rewrite Hv by discriminate. apply H6. exact Hj.
+        -- intros n Hn. unfold vcov. simpl. rewrite Hv by discriminate. apply H7. exact Hn.
+        -- intros Hx. exfalso. pose proof (a_mfree _ _ HA Hx t) as F. rewrite Epc in F. discriminate.
+        -- rewrite H9. reflexivity.
+        -- intros cl. rewrite vget_vupd. destruct (pcell_eqb cl CRc); [specialize (H10 CRc); lia|apply H10].
+      * intros u. simpl. unfold upd. destruct (Nat.eqb_spec u t).
+        -- subst u. split; [simpl; apply vle_bump; exact Vle|]. split; [simpl; intros _ Hp; discriminate|].
+           unfold vpc_ok, payfact. simpl. split.
+           ++ unfold vcov, bump. simpl. rewrite !vget_upd_same. reflexivity.
+           ++ rewrite Hmsg. split; [apply H4; lia|].
+              unfold vcov, bump. simpl. rewrite !vget_upd_other by discriminate. exact Vp.
+        -- assert (Hmu : mheld (t_pc (s_thr s u)) = false).
+           { eapply mheld_others; eauto. rewrite Epc. reflexivity. }
+           eapply (vthr_touch c s _ _ CRc).
+           ++ apply Vall.
+           ++ intros cl Hn. simpl. apply Hv. exact Hn.
+           ++ simpl. rewrite vget_upd_same. lia.
+           ++ reflexivity.
+           ++ reflexivity.
+           ++ simpl. lia.
+           ++ right. intros Ep. rewrite Ep in Hmu. discriminate.
+           ++ apply unt_take. exact Hmu.
+  - (* KWaitOp *)
+    destruct (s_cursor s =? t_pos (s_thr s t)); [destruct (Nat.eqb ch 1); [|destruct (Nat.eqb ch 2)]|]; inv_some Hs; vpc_only HV Vle Vsg Epc; exact Vpc.
   - discriminate.
-  - no_k HA t Epc.
-  - no_k HA t Epc.
+  - (* KUnlock: the mutex keeps the holder's view for the next one *)
+    destruct Vpc as [Vc Pf]. inv_some Hs.
+    destruct Vsh as [H1 H2 H3 H4 H5 H6 H7 H8 H9 H10]. split.
+    + constructor; simpl; try assumption. intros _. exact Vc.
+    + intros u. simpl. unfold upd. destruct (Nat.eqb_spec u t).
+      * subst u. split; [exact Vle|]. split; [simpl; intros _ Hp; discriminate|].
+        unfold vpc_ok. simpl. exact Pf.
+      * apply (vthr_same6 s); try reflexivity. apply Vall.
+  - (* KDoneSeg *)
+    destruct Vpc as [Pm Pc].
+    assert (Hu : unc1 (if t_ret (s_thr s t) <? 0 then true
+                       else covered (t_view (s_thr s t)) (s_ver s) (CPay (t_ret (s_thr s t)))) = 0%nat).
+    { unfold covered. unfold vcov in Pc. rewrite Pc, Z.eqb_refl. destruct (t_ret (s_thr s t) <? 0); reflexivity. }
+    inv_some Hs. rewrite Hu.
+    destruct Vsh as [H1 H2 H3 H4 H5 H6 H7 H8 H9 H10]. split.
+    + constructor; simpl; try assumption. rewrite H9. reflexivity.
+    + intros u. simpl. unfold upd. destruct (Nat.eqb_spec u t).
+      * subst u. split; [exact Vle|]. split.
+        -- simpl. intros _ Hp. destruct (pred (t_rem (s_thr s t))); simpl in Hp; discriminate.
+        -- unfold vpc_ok. simpl. destruct (pred (t_rem (s_thr s t))); simpl; exact I.
+      * apply (vthr_same6 s); try reflexivity. apply Vall.
   - (* TFin *) inv_some Hs. vpc_only HV Vle Vsg Epc. exact I.
   - discriminate.
 Qed.
